@@ -1,5 +1,6 @@
 import Hertz.Driver.Core
 import Hertz.Model.Http1.Serve
+import Hertz.Driver.H1Spec
 namespace Hertz.Driver.H1
 open Hertz Hertz.Driver Hertz.H1
 
@@ -46,12 +47,18 @@ def handle : Handler
              tag := "reqhead:ok:" ++ sizeClass hd.h.length ++ toString (if hd.cl < 0 then hd.cl else 0) ++ boolTok hd.connClose ++ boolTok hd.http11 ++ boolTok (!hd.trailer.isEmpty) }
     | .error .needMore => pure { out := ["needmore"], tag := "reqhead:needmore" }
     | .error .bad => pure { out := ["bad"], tag := "reqhead:bad" }
-  | ["serve", flags, maxBody, endK, stream, _cuts], _ => do
+  | ["serve", flags, maxBody, endK, stream, _cuts], impl => do
     let s ← hx stream
     let cfg : Cfg := { disableNorm := flags.contains 'n', disableKeepalive := flags.contains 'k', maxBody := (if maxBody.toNat! = 0 then 4194304 else maxBody.toNat!) }
     let e := if endK == "stall" then End.stall else End.eof
     let evs := serve cfg e s
-    pure { out := evTokens evs, tag := "serve:" ++ evTag evs ++ (if endK == "stall" then "S" else "E") }
+    let (ok, note) := match H1Spec.parseImpl impl with
+      | none => (false, "impl-output-unparsable(panic/hang)")
+      | some o =>
+        let (ok1, n1) := H1Spec.c01 s cfg.disableNorm cfg.disableKeepalive (fun n => n > cfg.maxBody) o
+        (ok1 && H1Spec.c03 o, (if ok1 then "" else "C01-view-mismatch ") ++ (if H1Spec.c03 o then "" else "C03-unclean-output ") ++ n1)
+    pure { out := evTokens evs, spec := ok, specNote := note,
+           tag := "serve:" ++ evTag evs ++ (if endK == "stall" then "S" else "E") ++ ":" ++ (if ok then note else "") }
   | _, _ => none
 
 end Hertz.Driver.H1
